@@ -741,6 +741,10 @@ def main(tier):
                     f = fs[-1]
                     od = O.order_of(f, d)
                     body = b"".join(bytes([r.randrange(1, 256)]) + bytes(r.getrandbits(8) for _ in range(sz - 1)) for _ in range(cnt))
+                    if kind == "var" and cnt == 2 and sz > 1:
+                        # sz null bytes straddling the two (non-null) elements: not a terminator
+                        h = r.randrange(1, sz)
+                        body = bytes(r.randrange(1, 256) for _ in range(sz - h)) + bytes(sz) + bytes(r.randrange(1, 256) for _ in range(h))
                     if kind == "var":
                         data = body + bytes(sz)
                     elif kind == "cnt":
